@@ -71,6 +71,31 @@ var GC = make(chan string, 4)
 '''
 
 
+LIB = '''package lib
+
+// A second package: with a pkg-filter that does not match it, its functions are not summarised eagerly.
+
+var Store string
+
+type T struct{ F string }
+
+var Obj = &T{}
+
+func Sink1(x any)            {}
+func Put(x string)           { Store = x }
+func Get() string            { return Store }
+func PutF(x string)          { Obj.F = x }
+func GetF() string           { return Obj.F }
+func Relay(x string) string  { return x }
+func Audit()                 { Sink1(Store) }
+func AuditF()                { Sink1(Obj.F) }
+func Chain(x string) string  { Put(x); return Get() }
+func Keep(x string) func() string { return func() string { return x + Store } }
+'''
+
+CONFIG_MULTI = CONFIG.replace('"(main)|(command-line-arguments)"', '".*"').replace('"^sink[0-9]*$"', '"^(s|S)ink[0-9]*$"')
+
+
 class FuncGen:
     def __init__(self, g, idx):
         self.g = g
@@ -101,6 +126,9 @@ class FuncGen:
         if depth < 2:
             opts += ["call", "call", "source", "index", "mapread", "closurecall", "iface", "gfield", "deref", "conv"]
         k = r.pick(opts)
+        if self.g.lib and depth < 2 and r.chance(12):
+            return r.pick(["lib.Get()", "lib.GetF()", "lib.Store", "lib.Relay(%s)" % self.s(depth + 1),
+                           "lib.Chain(%s)" % self.s(depth + 1), "lib.Keep(%s)()" % self.s(depth + 1), "lib.Obj.F"])
         if k == "var" and self.strs:
             return r.pick(self.strs)
         if k == "lit":
@@ -113,7 +141,10 @@ class FuncGen:
             return self.s(depth + 1) + " + " + self.s(depth + 1)
         if k == "call":
             callee = r.below(self.g.nfuncs)
-            return "f%d(%s, %s)" % (callee, self.s(depth + 1), self.st(depth + 1))
+            c = "f%d(%s, %s)" % (callee, self.s(depth + 1), self.st(depth + 1))
+            if r.chance(25):
+                return c + " + " + r.pick(["G0", "G1"])
+            return c
         if k == "source":
             return r.pick(["source1()", "source2()", "source3().f"])
         if k == "index" and self.slices:
@@ -167,6 +198,10 @@ class FuncGen:
         if depth < 2:
             kinds += ["if", "if", "for", "defer", "switch", "rangemap"]
         k = r.pick(kinds)
+        if self.g.lib and r.chance(15):
+            self.emit(r.pick(["lib.Put(%s)" % self.s(), "lib.PutF(%s)" % self.s(), "lib.Store = %s" % self.s(),
+                              "lib.Audit()", "lib.AuditF()", "lib.Obj.F = %s" % self.s(), "lib.Sink1(%s)" % self.s()]))
+            return
         if k == "decl":
             v = self.fresh()
             self.emit("%s := %s" % (v, self.s()))
@@ -328,13 +363,14 @@ class FuncGen:
 
 
 class Program:
-    def __init__(self, rng, nfuncs=None, stmts=None):
+    def __init__(self, rng, nfuncs=None, stmts=None, lib=False):
         self.rng = rng
+        self.lib = lib
         self.nfuncs = nfuncs or (2 + rng.below(6))
         self.stmts = stmts or (2 + rng.below(6))
 
     def text(self):
-        out = [PRELUDE]
+        out = [PRELUDE.replace("package main\n", 'package main\n\nimport "m/lib"\n\nvar _ = lib.Store\n', 1) if self.lib else PRELUDE]
         for i in range(self.nfuncs):
             fg = FuncGen(self, i)
             fg.strs = ["p"]
@@ -343,7 +379,13 @@ class Program:
                 fg.stmt()
             out.append("func f%d(p string, q *S) string {" % i)
             out += fg.lines
-            out.append("\treturn %s" % fg.s(1))
+            if self.rng.chance(35) and fg.strs:
+                # the returned value is also published through a global: two routes of equal length to the caller
+                v = self.rng.pick(fg.strs)
+                out.append("\t%s = %s" % (self.rng.pick(["G0", "G1"]), v))
+                out.append("\treturn %s" % v)
+            else:
+                out.append("\treturn %s" % fg.s(1))
             out.append("}\n")
         fg = FuncGen(self, -1)
         x = fg.fresh()
@@ -368,3 +410,32 @@ class Program:
 
 def generate(rng, **kw):
     return Program(rng, **kw).text()
+
+
+def diamond(rng):
+    """Program family: tainted data reaches one node by two routes of equal hop count - one through r nested
+    function returns, one through a global (or a field of a shared object) - and then travels t more calls to a
+    sink. Depth-limited traversals are sensitive to which route is explored first."""
+    r = 1 + rng.below(3)
+    t = rng.below(4)
+    via = rng.pick(["global", "global", "field"])
+    out = ["package main", "", "type S struct{ f string }", "", "var G string", "var GS = &S{}", "",
+           'func source1() string { return "s" }', "func sink1(x any)      {}", ""]
+    store = "G = s" if via == "global" else "GS.f = s"
+    load = "G" if via == "global" else "GS.f"
+    out += ["func get0() string {", "\ts := source1()", "\t" + store, "\treturn s", "}", ""]
+    for i in range(1, r + 1):
+        out += ["func get%d() string {" % i, "\treturn get%d()" % (i - 1), "}", ""]
+    for i in range(t):
+        out += ["func pass%d(s string) string {" % i, "\treturn s", "}", ""]
+    out += ["func main() {"]
+    if rng.chance(50):
+        out += ["\tv := get%d() + %s" % (r, load)]
+    else:
+        out += ["\tv := %s + get%d()" % (load, r)]
+    cur = "v"
+    for i in range(t):
+        out += ["\tw%d := pass%d(%s)" % (i, i, cur)]
+        cur = "w%d" % i
+    out += ["\tsink1(%s)" % cur, "}", ""]
+    return "\n".join(out)
